@@ -675,7 +675,7 @@ func updateFkeysIIndex(mu *metaUpdate, sch *schema.Schema) {
 	for i := range sch.Indexes {
 		ix := &sch.Indexes[i]
 		if ix.Fk.Table != "" {
-			updateOtherFkToHere(mu, sch.Table, &ix.Fk, i)
+			updateOtherFkToHere(mu, sch.Table, ix.Columns, &ix.Fk, i)
 		}
 		for j := range ix.FkToHere {
 			updateOtherFk(mu, sch.Table, &ix.FkToHere[j], i)
@@ -683,14 +683,20 @@ func updateFkeysIIndex(mu *metaUpdate, sch *schema.Schema) {
 	}
 }
 
-func updateOtherFkToHere(mu *metaUpdate, table string, fk *Fkey, iindex int) {
+// updateOtherFkToHere updates the index number in the back link
+// for the foreign key fk of the index with columns cols of table.
+// It must match on the columns of the back link as well,
+// because a table can have several foreign keys to the same key.
+func updateOtherFkToHere(mu *metaUpdate, table string, cols []string,
+	fk *Fkey, iindex int) {
 	ts := mu.getSchema(fk.Table)
 	for i := range ts.Indexes {
 		ix := &ts.Indexes[i]
 		for j := range ix.FkToHere {
 			ix.FkToHere = slc.Clone(ix.FkToHere)
 			fk2 := &ix.FkToHere[j]
-			if fk2.Table == table && slices.Equal(ix.Columns, fk.Columns) {
+			if fk2.Table == table && slices.Equal(fk2.Columns, cols) &&
+				slices.Equal(ix.Columns, fk.Columns) {
 				fk2.IIndex = iindex
 			}
 		}
